@@ -172,7 +172,7 @@ class StochasticSolver(ABC):
                 )
 
                 # Check for inf
-                if any(np.any(np.isinf(g_est_i)) for g_est_i in g_est):
+                if not all(np.all(np.isfinite(g_est_i)) for g_est_i in g_est):
                     raise ValueError(
                         f"Infinite gradient encountered! (epoch = {n_epoch}, "
                         f"iter = {iteration}"
@@ -190,7 +190,7 @@ class StochasticSolver(ABC):
             epochs_done = n_epoch + 1
 
             # Check convergence
-            failed_epoch = f_est > f_est_prev
+            failed_epoch = not f_est <= f_est_prev  # NaN counts as a failure
             self._nfails += failed_epoch
 
             f_est_tol_test = f_est < self._f_est_tol
